@@ -10,7 +10,9 @@ package main
 
 import (
 	"encoding/binary"
+	"errors"
 	"fmt"
+	"os"
 	"sort"
 	"strconv"
 	"strings"
@@ -24,6 +26,7 @@ import (
 	"verif/engine/vnode"
 	vs "verif/engine/vsched"
 	"verif/engine/vsched/vatomic"
+	context "verif/engine/vsched/vcontext"
 )
 
 // ---------------------------------------------------------------- statements
@@ -138,6 +141,10 @@ type opInfo struct {
 	err    error
 	got    string // what Scan produced ("" for void / error)
 	rows   int
+	// context scenarios: every operation has its OWN context; only thread 1's first operation's is ever ended
+	ctx      context.Context
+	cancel   context.CancelFunc
+	ctxEnded bool // a canceller thread cancels it / it carries a deadline
 }
 
 func (o *opInfo) name() string { return fmt.Sprintf("t%d.op%d(%s)", o.th, o.oi, o.spec) }
@@ -182,6 +189,7 @@ type prepLog struct {
 	host    string
 	def     *stmtDef
 	outcome string // ok, error, never
+	late    bool
 	msg     string
 	id      string
 }
@@ -221,6 +229,10 @@ type world struct {
 	ops      map[int]*opInfo
 	told     map[int]map[string]bool // operation -> ids it was told are unknown
 	maxLen   int
+	cancelAt int // seq stamp of the canceller's cancel() (0: not yet / none)
+	phase    int // 1: a PREPARE has reached a node; 2: an EXECUTE of the victim operation (thread 1, op 0) has reached a node
+	gate     int // phase the canceller waits for (free choice)
+	finished int // executor threads that have returned
 }
 
 // tell records that the operations whose values are in el were answered UNPREPARED(id).
@@ -381,6 +393,9 @@ func (w *world) handler(ip string, idx int) vnode.Handler {
 			if w.cfg.prepFaults > 0 {
 				alt = vs.Choose(1+w.cfg.prepFaults, vs.CostF)
 			}
+			if w.phase < 1 {
+				w.phase = 1
+			}
 			pl := &prepLog{seq: w.next(), host: ip, def: def}
 			w.prepares = append(w.prepares, pl)
 			switch alt {
@@ -409,6 +424,10 @@ func (w *world) handler(ip string, idx int) vnode.Handler {
 				p.Result = frame.RowsMetadata{GlobalTableSpec: true, GlobalKeyspace: "ks", GlobalTable: "t", ColumnCount: 1,
 					Columns: []frame.ColumnSpec{{Keyspace: "ks", Table: "t", Name: def.rcol, Type: leaf(def.res)}}}
 			}
+			if w.cfg.latePrep && vs.Choose(2, vs.Free) == 1 {
+				pl.late = true
+				return vnode.Reply{Msg: p, Delay: 30 * time.Millisecond}
+			}
 			return vnode.Reply{Msg: p}
 
 		case *frame.Execute:
@@ -418,6 +437,9 @@ func (w *world) handler(ip string, idx int) vnode.Handler {
 			where := fmt.Sprintf("EXECUTE #%d at %s", el.seq, ip)
 			e, ok := w.checkEntry(ns, m.ID, m.Params.Values, 0, where)
 			el.entries = []execEntry{e}
+			if e.op == 10 && w.phase < 2 {
+				w.phase = 2
+			}
 			if e.rec == nil {
 				w.tell(el, e.id)
 				return unprepared(e.id)
@@ -512,11 +534,15 @@ type c14cfg struct {
 	hosts      int
 	max        int // MaxPreparedStmts; 0: the default (1000)
 	threads    [][]opSpec
-	prepFaults int  // 0: PREPARE always succeeds; 1: may be answered with an ERROR frame; 2: ... or never answered
-	unprep     bool // EXECUTE/BATCH may be answered UNPREPARED (the node forgets the id)
-	lateStale  bool // UNPREPARED answers for an id forgotten earlier may be delayed by 30ms (free choice)
+	prepFaults int    // 0: PREPARE always succeeds; 1: may be answered with an ERROR frame; 2: ... or never answered
+	unprep     bool   // EXECUTE/BATCH may be answered UNPREPARED (the node forgets the id)
+	ctxEnd     string // "": no contexts. "cancel": every operation runs under its own context and a canceller thread cancels the one of thread 1's first operation at an arbitrary point; "deadline": that context has a 20ms deadline instead
+	latePrep   bool   // a successful PREPARE may be answered 30ms late (free choice): the window in which the winner's context ends
+	lateStale  bool   // UNPREPARED answers for an id forgotten earlier may be delayed by 30ms (free choice)
 	keyspace   string
-	t          [2]int
+	t          [2]int // {T quick, T thorough} of a scenario of its own; ignored inside a group
+	grp        string // "": a scenario of its own; else the group (one explored scenario whose first, free, choice selects the variant)
+	quick      bool   // grouped variants: explored in the quick tier too
 }
 
 func (c *c14cfg) distinctStatements() int {
@@ -572,23 +598,58 @@ func (c *c14cfg) body() {
 	}
 	w.sess = sess
 
-	done := make(chan int, len(c.threads))
+	nWait := len(c.threads)
+	done := make(chan int, len(c.threads)+1)
+	if c.ctxEnd != "" {
+		for _, o := range all {
+			if c.ctxEnd == "deadline" && o.th == 1 && o.oi == 0 {
+				o.ctx, o.cancel = context.WithTimeout(context.Background(), 20*time.Millisecond)
+				o.ctxEnded = true
+			} else {
+				o.ctx, o.cancel = context.WithCancel(context.Background())
+			}
+		}
+	}
 	for ti := range c.threads {
 		ti := ti
 		vs.GoNamed(fmt.Sprintf("exec%d", ti+1), func() {
 			for oi := range c.threads[ti] {
 				w.run(w.ops[10*(ti+1)+oi])
 			}
+			if c.ctxEnd == "cancel" {
+				w.touch()
+				w.finished++
+			}
 			vs.Send(done, ti)
 		})
 	}
-	for range c.threads {
+	if c.ctxEnd == "cancel" {
+		victim := w.ops[10]
+		victim.ctxEnded = true
+		nWait++
+		vs.GoNamed("canceller", func() {
+			// where the cancel lands: as soon as the canceller is scheduled (0), once a PREPARE is at the node and
+			// unanswered (1), or once the victim's own EXECUTE is at the node (2); schedule deviations move it further
+			w.gate = vs.Choose(3, vs.Free)
+			w.touch()
+			vs.PointObj("canceller-gate", func() bool { return w.phase >= w.gate || w.finished == len(c.threads) }, unsafe.Pointer(&w.obj), false)
+			w.cancelAt = w.next()
+			victim.cancel()
+			vs.Send(done, -1)
+		})
+	}
+	for i := 0; i < nWait; i++ {
 		vs.Recv[int](done)
 	}
 	vs.WaitQuiescent()
 	w.checkLRU("quiescence")
 	w.oracle(all)
 	vs.Quiet(true)
+	for _, o := range all {
+		if o.cancel != nil {
+			o.cancel()
+		}
+	}
 	sess.Close()
 	vs.Quiet(false)
 }
@@ -602,11 +663,17 @@ func (w *world) run(o *opInfo) {
 			vals, _ := o.values(e)
 			b.Query(stmtByTag(tag).text, vals...)
 		}
+		if o.ctx != nil {
+			b = b.WithContext(o.ctx)
+		}
 		o.err = w.sess.ExecuteBatch(b)
 	} else {
 		def := stmtByTag(o.spec.entries[0])
 		vals, _ := o.values(0)
 		qry := w.sess.Query(def.text, vals...)
+		if o.ctx != nil {
+			qry = qry.WithContext(o.ctx)
+		}
 		switch def.res {
 		case 0:
 			o.err = qry.Exec()
@@ -634,12 +701,19 @@ func (w *world) run(o *opInfo) {
 // ---------------------------------------------------------------- oracle
 
 func (w *world) describe(all []*opInfo) string {
-	var b []string
+	b := []string{"configuration " + w.cfg.name}
 	for _, o := range all {
 		b = append(b, fmt.Sprintf("[%d..%d] %s -> %s %q", o.start, o.end, o.name(), gocql.VerifErrClass(o.err), o.got))
 	}
 	for _, p := range w.prepares {
-		b = append(b, fmt.Sprintf("#%d PREPARE %s@%s=%s %s%s", p.seq, p.def.tag, p.host, p.outcome, p.id, p.msg))
+		late := ""
+		if p.late {
+			late = "(late)"
+		}
+		b = append(b, fmt.Sprintf("#%d PREPARE %s@%s=%s%s %s%s", p.seq, p.def.tag, p.host, p.outcome, late, p.id, p.msg))
+	}
+	if w.cancelAt > 0 {
+		b = append(b, fmt.Sprintf("#%d cancel of t1.op0's context (gate %d)", w.cancelAt, w.gate))
 	}
 	for _, e := range w.execs {
 		kind := "EXECUTE"
@@ -692,6 +766,12 @@ func (w *world) oracle(all []*opInfo) {
 			if pr.forgotten {
 				nLost[hk{pr.host, pr.def.tag}]++
 			}
+		}
+	}
+	if c.ctxEnd != "" {
+		// a PREPARE abandoned because its initiator's context ended may be followed by another one
+		for k := range nPrep {
+			nLost[k]++
 		}
 	}
 	if !evictionPossible && dDev == 0 {
@@ -762,6 +842,14 @@ func (w *world) oracle(all []*opInfo) {
 		}
 		// an error must be explained by a fault: a failed PREPARE of one of its statements, or a timeout
 		explained := false
+		if cls == "ctx-canceled" || cls == "ctx-deadline" || errors.Is(o.err, context.Canceled) || errors.Is(o.err, context.DeadlineExceeded) {
+			// only the operation whose own context ended may see a context error, and (cancel) only after the cancel() call
+			own := o.ctxEnded && (c.ctxEnd == "deadline" || (w.cancelAt > 0 && w.cancelAt < o.end))
+			if !own {
+				vs.Failf("c14:foreign-context-error", "%s failed with %v although its own context was never cancelled and has no deadline: %s", o.name(), o.err, desc())
+			}
+			continue
+		}
 		for msg, p := range failedPrep {
 			if !strings.Contains(o.err.Error(), msg) {
 				continue
@@ -813,50 +901,95 @@ func (w *world) oracle(all []*opInfo) {
 		ks = append(ks, fmt.Sprintf("%s@%s:%d", k.tag, k.host[len(k.host)-1:], n))
 	}
 	sort.Strings(ks)
-	vs.Observe("%s prep[%s] lru=%d", strings.Join(sig, " "), strings.Join(ks, ","), w.maxLen)
+	vs.Observe("%s: %s prep[%s] lru=%d", c.name, strings.Join(sig, " "), strings.Join(ks, ","), w.maxLen)
 }
 
 func (c *c14cfg) build() *vs.Scenario {
 	return &vs.Scenario{Name: c.name, Cfg: vs.Config{MaxSteps: 60000, Horizon: 900 * time.Millisecond, DelayBounded: true}, Body: c.body}
 }
 
+// group is one explored scenario whose first choice (free) selects one of several configurations.
+type group struct {
+	name     string
+	variants []*c14cfg
+}
+
+func (g *group) build() *vs.Scenario {
+	return &vs.Scenario{Name: g.name, Cfg: vs.Config{MaxSteps: 60000, Horizon: 900 * time.Millisecond, DelayBounded: true}, Body: func() {
+		g.variants[vs.Choose(len(g.variants), vs.Free)].body()
+	}}
+}
+
 func main() {
 	T := func(ops ...opSpec) []opSpec { return ops }
-	// t = {T quick, T thorough}; T quick 0: only the default execution is run in the quick tier
+	// t = {T quick, T thorough}. Scenarios with grp set are variants of ONE explored scenario named after the group (its first
+	// choice, free, selects the variant): the thorough budget is shared equally between explored scenarios, and the T=3
+	// scenarios need the larger share. Grouped variants without quick:true are explored in the thorough tier only.
 	cfgs := []*c14cfg{
 		// 1. the same statement from 2-3 threads at once on one host
 		{name: "same-stmt-2-threads", hosts: 1, threads: [][]opSpec{T(q("A")), T(q("A"))}, prepFaults: 2, unprep: true, lateStale: true, t: [2]int{2, 3}},
-		{name: "same-stmt-3-threads", hosts: 1, threads: [][]opSpec{T(q("A")), T(q("A")), T(q("A"))}, prepFaults: 2, unprep: true, lateStale: true, t: [2]int{2, 2}},
+		{name: "same-stmt-3-threads", hosts: 1, threads: [][]opSpec{T(q("A")), T(q("A")), T(q("A"))}, prepFaults: 2, unprep: true, lateStale: true, grp: "t2-one-host", quick: true},
 		// 1b. a second execution after the first: the execution after a failed PREPARE prepares again
 		{name: "same-stmt-2+1", hosts: 1, threads: [][]opSpec{T(q("A"), q("A")), T(q("A"))}, prepFaults: 2, unprep: true, t: [2]int{2, 3}},
-		{name: "same-stmt-2x2", hosts: 1, threads: [][]opSpec{T(q("A"), q("A")), T(q("A"), q("A"))}, prepFaults: 2, unprep: true, t: [2]int{0, 2}},
+		{name: "same-stmt-2x2", hosts: 1, threads: [][]opSpec{T(q("A"), q("A")), T(q("A"), q("A"))}, prepFaults: 2, unprep: true, grp: "t2-one-host"},
 		// 2. two different statements with different bind and result metadata
-		{name: "two-stmts-2+1", hosts: 1, threads: [][]opSpec{T(q("A"), q("B")), T(q("B"))}, prepFaults: 1, unprep: true, t: [2]int{2, 2}},
-		{name: "two-stmts-2x2", hosts: 1, threads: [][]opSpec{T(q("A"), q("B")), T(q("B"), q("A"))}, prepFaults: 1, unprep: true, t: [2]int{0, 2}},
+		{name: "two-stmts-2+1", hosts: 1, threads: [][]opSpec{T(q("A"), q("B")), T(q("B"))}, prepFaults: 1, unprep: true, grp: "t2-one-host", quick: true},
+		{name: "two-stmts-2x2", hosts: 1, threads: [][]opSpec{T(q("A"), q("B")), T(q("B"), q("A"))}, prepFaults: 1, unprep: true, grp: "t2-one-host"},
 		// 3. evictions interleaved with in-flight PREPAREs
 		{name: "lru1-two-stmts-2+1", hosts: 1, max: 1, threads: [][]opSpec{T(q("A")), T(q("B"), q("A"))}, prepFaults: 1, unprep: true, t: [2]int{2, 3}},
-		{name: "lru1-two-stmts-2x2", hosts: 1, max: 1, threads: [][]opSpec{T(q("A"), q("A")), T(q("B"), q("B"))}, prepFaults: 1, unprep: true, t: [2]int{0, 2}},
-		{name: "lru1-three-threads", hosts: 1, max: 1, threads: [][]opSpec{T(q("A")), T(q("B")), T(q("A"))}, prepFaults: 1, unprep: true, t: [2]int{0, 2}},
-		{name: "lru2-three-stmts", hosts: 1, max: 2, threads: [][]opSpec{T(q("A")), T(q("B")), T(q("C"))}, prepFaults: 1, unprep: true, t: [2]int{2, 2}},
-		{name: "lru2-three-stmts-4-ops", hosts: 1, max: 2, threads: [][]opSpec{T(q("A")), T(q("B"), q("A")), T(q("C"))}, prepFaults: 1, unprep: true, t: [2]int{0, 2}},
+		{name: "lru1-two-stmts-2x2", hosts: 1, max: 1, threads: [][]opSpec{T(q("A"), q("A")), T(q("B"), q("B"))}, prepFaults: 1, unprep: true, grp: "t2-eviction"},
+		{name: "lru1-three-threads", hosts: 1, max: 1, threads: [][]opSpec{T(q("A")), T(q("B")), T(q("A"))}, prepFaults: 1, unprep: true, grp: "t2-eviction"},
+		{name: "lru2-three-stmts", hosts: 1, max: 2, threads: [][]opSpec{T(q("A")), T(q("B")), T(q("C"))}, prepFaults: 1, unprep: true, grp: "t2-eviction", quick: true},
+		{name: "lru2-three-stmts-4-ops", hosts: 1, max: 2, threads: [][]opSpec{T(q("A")), T(q("B"), q("A")), T(q("C"))}, prepFaults: 1, unprep: true, grp: "t2-eviction"},
 		// 4. two hosts share the cache; ids are host specific
 		{name: "two-hosts-2-threads", hosts: 2, threads: [][]opSpec{T(q("A")), T(q("A"))}, prepFaults: 1, unprep: true, lateStale: true, t: [2]int{2, 3}},
-		{name: "two-hosts-2+1", hosts: 2, threads: [][]opSpec{T(q("A"), q("A")), T(q("A"))}, prepFaults: 1, unprep: true, t: [2]int{2, 2}},
-		{name: "two-hosts-2x2", hosts: 2, threads: [][]opSpec{T(q("A"), q("A")), T(q("A"), q("A"))}, prepFaults: 1, unprep: true, t: [2]int{0, 2}},
-		{name: "two-hosts-3-threads-lru1", hosts: 2, max: 1, threads: [][]opSpec{T(q("A")), T(q("A")), T(q("A"))}, prepFaults: 1, unprep: true, t: [2]int{2, 2}},
+		{name: "two-hosts-2+1", hosts: 2, threads: [][]opSpec{T(q("A"), q("A")), T(q("A"))}, prepFaults: 1, unprep: true, grp: "t2-two-hosts", quick: true},
+		{name: "two-hosts-2x2", hosts: 2, threads: [][]opSpec{T(q("A"), q("A")), T(q("A"), q("A"))}, prepFaults: 1, unprep: true, grp: "t2-two-hosts"},
+		{name: "two-hosts-3-threads-lru1", hosts: 2, max: 1, threads: [][]opSpec{T(q("A")), T(q("A")), T(q("A"))}, prepFaults: 1, unprep: true, grp: "t2-two-hosts", quick: true},
 		// 5. batches with prepared entries
-		{name: "batch-and-query", hosts: 1, threads: [][]opSpec{T(batch("I", "U")), T(q("I"), batch("U", "I"))}, prepFaults: 1, unprep: true, lateStale: true, t: [2]int{2, 2}},
+		{name: "batch-and-query", hosts: 1, threads: [][]opSpec{T(batch("I", "U")), T(q("I"), batch("U", "I"))}, prepFaults: 1, unprep: true, lateStale: true, grp: "t2-batch-arity", quick: true},
 		{name: "batch-lru1", hosts: 1, max: 1, threads: [][]opSpec{T(batch("I", "U")), T(batch("U", "U"))}, prepFaults: 1, unprep: true, t: [2]int{2, 3}},
+		// 7. every executor has its own context; the one of the executor that (by default) wins the race to PREPARE ends
+		// (cancelled by a canceller thread at an arbitrary point / 20ms deadline) while the shared PREPARE may be answered 30ms late
+		{name: "cancel-winner-2-threads", hosts: 1, threads: [][]opSpec{T(q("A")), T(q("A"))}, prepFaults: 1, unprep: true, ctxEnd: "cancel", t: [2]int{2, 3}},
+		{name: "cancel-winner-3-threads", hosts: 1, threads: [][]opSpec{T(q("A")), T(q("A")), T(q("A"))}, ctxEnd: "cancel", grp: "t12-context", quick: true},
+		{name: "deadline-winner-2+1", hosts: 1, threads: [][]opSpec{T(q("A")), T(q("A"), q("A"))}, ctxEnd: "deadline", latePrep: true, grp: "t12-context", quick: true},
 		// 6. wrong number of bound values
 		{name: "wrong-arity-2-threads", hosts: 1, threads: [][]opSpec{T(qN("A", 2)), T(q("A"))}, prepFaults: 1, unprep: true, t: [2]int{2, 3}},
-		{name: "wrong-arity-batch", hosts: 1, keyspace: "ks", threads: [][]opSpec{T(q("I"), qN("I", 0)), T(batchN("I", 1, "U"))}, prepFaults: 1, unprep: true, t: [2]int{2, 2}},
-		{name: "wrong-arity-3-threads", hosts: 1, keyspace: "ks", threads: [][]opSpec{T(qN("A", 2), q("A")), T(q("A"), qN("A", 0)), T(batchN("I", 1, "U"))}, prepFaults: 1, unprep: true, t: [2]int{0, 2}},
+		{name: "wrong-arity-batch", hosts: 1, keyspace: "ks", threads: [][]opSpec{T(q("I"), qN("I", 0)), T(batchN("I", 1, "U"))}, prepFaults: 1, unprep: true, grp: "t2-batch-arity", quick: true},
+		{name: "wrong-arity-3-threads", hosts: 1, keyspace: "ks", threads: [][]opSpec{T(qN("A", 2), q("A")), T(q("A"), qN("A", 0)), T(batchN("I", 1, "U"))}, prepFaults: 1, unprep: true, grp: "t2-batch-arity"},
 	}
+	tier := os.Getenv("VERIF_TIER")
+	for i, a := range os.Args {
+		if (a == "-tier" || a == "--tier") && i+1 < len(os.Args) {
+			tier = os.Args[i+1]
+		} else if strings.HasPrefix(a, "-tier=") || strings.HasPrefix(a, "--tier=") {
+			tier = a[strings.Index(a, "=")+1:]
+		}
+	}
+	os.Setenv("VERIF_TIER", tier) // shard children see the same tier
 	var defs []mcreport.Def
+	b := func(t int) vs.Bounds { return vs.Bounds{P: t, D: t, F: t, T: t} }
+	groups := map[string]*group{}
 	for _, c := range cfgs {
 		c := c
-		b := func(t int) vs.Bounds { return vs.Bounds{P: t, D: t, F: t, T: t} }
-		defs = append(defs, mcreport.Def{Name: c.name, Build: c.build, Quick: b(c.t[0]), Thorough: b(c.t[1])})
+		if c.grp == "" {
+			defs = append(defs, mcreport.Def{Name: c.name, Build: c.build, Quick: b(c.t[0]), Thorough: b(c.t[1])})
+			continue
+		}
+		g := groups[c.grp]
+		if g == nil {
+			g = &group{name: c.grp}
+			groups[c.grp] = g
+			qt := 2
+			if strings.HasPrefix(c.grp, "t12") {
+				qt = 1
+			}
+			defs = append(defs, mcreport.Def{Name: g.name, Build: g.build, Quick: b(qt), Thorough: b(2)})
+		}
+		if tier == "thorough" || c.quick {
+			g.variants = append(g.variants, c)
+		}
 	}
 	mcreport.Main("C14", "model_checking",
 		"delay-bounded exhaustive exploration of 2-3 executor threads (1-2 prepared queries / batches each) on a real Session over 1-2 scripted nodes: every schedule, timer and fault placement with at most T deviations from the default schedule (P: run another thread, D: fire a request timeout early, F: the node fails a PREPARE with an ERROR frame / never answers it / forgets a prepared id and answers UNPREPARED); scenarios vary the statements (5 statements with different bind and result metadata), MaxPreparedStmts (default, 1, 2), hosts (1, 2), queries vs batches, right vs wrong number of bound values; node logs (ids issued per host and statement, values decoded against the statement's bind metadata) and caller results are checked against the property",
